@@ -119,7 +119,12 @@ MUTANTS = [
 """)),
     M("own-kill-shutdown-iterates", ["C01", "C06"], ["R-OWN-RESOLVE"],
       (PE, """            while self.pending_work_items:
-                _, work_item = self.pending_work_items.popitem()
+                try:
+                    _, work_item = self.pending_work_items.popitem()
+                except KeyError:
+                    # The feeder thread of the call queue can concurrently
+                    # remove (and fail) an item it could not serialize.
+                    break
                 try:
                     work_item.future.set_exception(
                         ShutdownExecutorError(
@@ -739,7 +744,12 @@ MUTANTS = [
             while self.pending_work_items:""")),
     M("killpath-pending-not-failed", ["C06", "C01"], ["R-KILL-PATH", "R-MGR-EXIT", "R-DROP-RESOLVES"],
       (PE, """            while self.pending_work_items:
-                _, work_item = self.pending_work_items.popitem()
+                try:
+                    _, work_item = self.pending_work_items.popitem()
+                except KeyError:
+                    # The feeder thread of the call queue can concurrently
+                    # remove (and fail) an item it could not serialize.
+                    break
                 try:
                     work_item.future.set_exception(
                         ShutdownExecutorError(
@@ -1334,10 +1344,14 @@ MUTANTS = [
                 _, work_item = self.pending_work_items.popitem()""")),
     M("scn-kill-path-loop-inverted", ["C06"], ["R-SCN-MANAGER"],
       (PE, """            while self.pending_work_items:
-                _, work_item = self.pending_work_items.popitem()
-                try:""", """            while not self.pending_work_items:
-                _, work_item = self.pending_work_items.popitem()
-                try:""")),
+                try:
+                    _, work_item = self.pending_work_items.popitem()
+                except KeyError:
+                    # The feeder thread""", """            while not self.pending_work_items:
+                try:
+                    _, work_item = self.pending_work_items.popitem()
+                except KeyError:
+                    # The feeder thread""")),
     M("scn-result-pid-test-inverted", ["C01", "C07"], ["R-SCN-RESULT"],
       (PE, """        if isinstance(result_item, int):
             # Clean shutdown of a worker using its PID""", """        if not isinstance(result_item, int):
